@@ -106,6 +106,20 @@ func PrintableBytes(data []byte) bool {
 }
 
 func BytesFromBuffer(r io.Reader, length int) ([]byte, error) {
+	if length < 0 {
+		return nil, fmt.Errorf("[BytesFromBuffer] invalid length (Req:%d)", length)
+	}
+
+	// NB check what is available before allocating, so that a length taken from untrusted
+	//    data cannot make us allocate (much) more than the input itself
+	if lenReader, ok := r.(interface{ Len() int }); ok && length > lenReader.Len() {
+		err := io.ErrUnexpectedEOF
+		if lenReader.Len() == 0 {
+			err = io.EOF
+		}
+		return nil, fmt.Errorf("[BytesFromBuffer] Req:%d, Act:%d: %w", length, lenReader.Len(), err)
+	}
+
 	tmp := make([]byte, length)
 
 	n, err := io.ReadFull(r, tmp)
